@@ -225,6 +225,9 @@ def compare(kind, p, how, impl, model):
                 return None if ib == mb else f"impl {short(impl)} vs model {short(model)}"
             a, b = canon_bins(p, ib, how), canon_bins(p, mb, how)
             return None if a == b else f"impl {a} vs model {b}"
+        if how == "count":
+            ni = len(impl["bins"]) if "bins" in impl else impl.get("num")
+            return None if ni == len(mb) else f"number of bins impl {ni} vs model {len(mb)}"
         if how == "value":
             o, ok = p.get("objective", [2, 0])
             iv = obj_value(o, ok, sums_of_result(out, impl))
